@@ -20,7 +20,7 @@ A semantic property of tsdate that users rely on:
   code it is anchored in: {", ".join(anch.get('files', []))} — {mech}
 
 YOUR TASK: produce a realistic change to the tsdate source (the kind of mistake or "harmless refactor/optimisation" a contributor could make) that BREAKS this property while the package still imports, and while the repository's existing test suite still passes:
-    cd /tmp/seed-{tag}/repo && PYTHONPATH=/tmp/seed-{tag}/repo /venv/bin/python -m pytest -q -p no:cacheprovider --timeout=900 -x -n 8
+    cd /tmp/seed-{tag}/repo && PYTHONPATH=/tmp/seed-{tag}/repo /venv/bin/python -m pytest -q -p no:cacheprovider --timeout=900 -x -n 4
 (run the full suite at least once with your final patch applied; all tests that pass without the patch must pass with it; it takes several minutes).
 The change must need something specific to manifest — an unusual but valid input, a particular option combination, a multi-step sequence of calls, a particular ordering/interleaving or crash point, or two cooperating edit sites that each look fine alone — NOT something ordinary use or the default example would expose at once. Keep the diff small (a few lines) and plausible. {hint}
 
